@@ -5,7 +5,7 @@ import ast
 
 from ..core import AnalysisError
 from ..dispatchers import dispatch_summary
-from ..loader import facts, link, literal, parse_file, unparse
+from ..loader import facts, link, literal, parse_file, strip_docstring, unparse
 from ..methods import class_methods
 from ..peval import ClassVal, FuncVal, Inst, Interp, Opaque, PyRaise, Undecided, World
 
@@ -315,7 +315,8 @@ def run(ctx):
                             ok, msg = False, f"scalar argument `{unparse(a)}` after coordinate arguments"
                             break
                         extras.append(unparse(a))
-                name = f"{fn.name}@{c.lineno}"
+                gen_ = parent.get(id(fn))
+                name = f"{gen_.name + '.' if gen_ is not None else ''}{fn.name}@{c.lineno}"
                 ctx.ob("C07.coord-binding", name, ok, msg, None, f"{NUMBA_OBJ}:{c.lineno}", sample={"call": unparse(c)[:120]})
                 if not ok:
                     continue
@@ -352,8 +353,9 @@ def run(ctx):
                     if m is None or len(m.sites) != 1 or m.sites[0].via_module_of:
                         continue
                     vecs = {"self", "other"} | {p for p in m.params if p in ("axis", "p4", "beta3", "booster")}
-                    want = [a for a in m.sites[0].args if a.split(".")[0] not in vecs]
-                    if want and extras and all(w.isidentifier() for w in want) and all(e.isidentifier() for e in extras):
+                    # constants and expressions among the dispatch arguments (the "zyx" of rotate_nautical, order.lower()) select the kernel; the scalars fed to it are the parameters
+                    want = [a for a in m.sites[0].args if a.split(".")[0] not in vecs and a.isidentifier()]
+                    if want and extras and all(e.isidentifier() for e in extras):
                         ctx.ob("C07.kernel-arguments", f"{tname}.{oname} scalars@{c.lineno}", extras == want,
                                f"scalars passed {extras}, interpreter dispatch passes {want}", None, f"{NUMBA_OBJ}:{c.lineno}")
                     break
@@ -384,7 +386,7 @@ def run(ctx):
     flav = FuncVal(nf.functions["flavor_of"], "vector.backends._numba_object")
     dimf = FuncVal(nf.functions["dimension_of"], "vector.backends._numba_object")
     # module environment for the numba file: only the names these two helpers use
-    env = W._modenv.setdefault("vector.backends._numba_object", {})
+    env = W.module_env("vector.backends._numba_object")
     env.update({"Momentum": W.classes["Momentum"]})
     for d in (2, 3, 4):
         tcls = ClassVal(f"VectorObject{d}DType", "vector.backends._numba_object", nf.classes[f"VectorObject{d}DType"], W)
@@ -443,6 +445,9 @@ def run(ctx):
     params = [a.arg for a in vo.args.args] if vo is not None else []
     ctx.ob("C07.obj-overload", "vector_obj parameters", params[1:] == NAMES19 and params[:1] == ["unrecognized_argument"], f"parameters {params}", None, NUMBA_OBJ)
     _type_identity(ctx, nf)
+    _composite_overloads(ctx, nf, overloads, instances)
+    _literal_arguments(ctx, W, nf, overloads)
+    _obj_agreement(ctx, W, nf)
     # ---- (8) Awkward-Numba typers ---------------------------------------------------------------------------------
     import itertools
     from ..peval import BUILTINS
@@ -572,3 +577,274 @@ def _type_identity(ctx, nf):
                     msg = f"the name leaves out the type parameter(s) {missing}: types that differ only there would be interned as one"
         ctx.ob("C07.type-identity", cname, not msg, msg, None, f"{NUMBA_OBJ}:{cnode.lineno}")
     ctx.anchor("numba type classes", n, 6)
+
+
+# ---- composite overloads: written in terms of other methods, no kernel table lookup ------------------------------------
+_ISA_DIM = {"Vector2D": 2, "Vector3D": 3, "Vector4D": 4, "VectorObject2DType": 2, "VectorObject3DType": 3, "VectorObject4DType": 4,
+            "VectorObject2D": 2, "VectorObject3D": 3, "VectorObject4D": 4}
+
+
+class _Canon:
+    """normal form of forwarding expressions: every `recv.name(args)` / `recv.name` on the vector itself and every `<module>.dispatch(...)` becomes
+    ('dispatch', group, module, args) by resolving trivial forwarders of the interpreter's method layer; parameters are named by position"""
+
+    def __init__(self, dim, momentum, imports=None):
+        self.dim, self.momentum, self.imports = dim, momentum, imports or {}
+
+    def expr(self, node, pmap, depth=0):
+        if isinstance(node, ast.Name):
+            return pmap.get(node.id, ("name", node.id))
+        if isinstance(node, ast.Constant):
+            return ("const", float(node.value) if isinstance(node.value, (int, float)) and not isinstance(node.value, bool) else node.value)
+        if isinstance(node, ast.UnaryOp) and isinstance(node.op, ast.USub) and isinstance(node.operand, ast.Constant) and isinstance(node.operand.value, (int, float)):
+            return ("const", -float(node.operand.value))
+        if isinstance(node, ast.Attribute):
+            recv = self.expr(node.value, pmap, depth)
+            return None if recv is None else self.method(node.attr, recv, (), depth)
+        if isinstance(node, ast.Call) and isinstance(node.func, ast.Attribute) and not node.keywords:
+            args = [self.expr(a, pmap, depth) for a in node.args]
+            if any(a is None for a in args):
+                return None
+            if node.func.attr == "dispatch" and isinstance(node.func.value, ast.Name):
+                imp = self.imports.get(node.func.value.id)
+                if imp is None:
+                    return None
+                return ("dispatch", imp[0], imp[1], tuple(args))
+            recv = self.expr(node.func.value, pmap, depth)
+            return None if recv is None else self.method(node.func.attr, recv, tuple(args), depth)
+        return None
+
+    def method(self, name, recv, args, depth):
+        plain = ("call", name, recv, args)
+        if recv != "p0" or depth > 3:
+            return plain
+        m = interp_method(self.dim, name, self.momentum)
+        if m is None:
+            return plain
+        body = [st for st in strip_docstring(m.fn.body) if not isinstance(st, (ast.ImportFrom, ast.Import))
+                and not (isinstance(st, ast.If) and not st.orelse and len(st.body) == 1 and isinstance(st.body[0], ast.Raise))]  # rejection guards do not change the target
+        if len(body) != 1 or not isinstance(body[0], ast.Return) or body[0].value is None or len(m.params) != 1 + len(args):
+            return plain
+        pm = dict(zip(m.params, (recv, *args)))
+        sub = _Canon(self.dim, self.momentum, m.imports).expr(body[0].value, pm, depth + 1)
+        return plain if sub is None else sub
+
+
+def _canon_cond(test, pmap):
+    """isinstance(param, <vector class of dimension N>) -> ('isa', pK, N); anything else -> None"""
+    neg = False
+    if isinstance(test, ast.UnaryOp) and isinstance(test.op, ast.Not):
+        neg, test = True, test.operand
+    if isinstance(test, ast.Call) and unparse(test.func) == "isinstance" and len(test.args) == 2 and isinstance(test.args[0], ast.Name) \
+            and test.args[0].id in pmap and isinstance(test.args[1], ast.Name) and test.args[1].id in _ISA_DIM:
+        return ("not-isa" if neg else "isa", pmap[test.args[0].id], _ISA_DIM[test.args[1].id])
+    return None
+
+
+def _branches(body, pmap, path, out, numba_side, canon):
+    """[(frozenset(path conditions), canonical return | ('raise',))] of an if/elif/else chain whose leaves return/raise (numba: define an impl)"""
+    impl = None
+    for st in body:
+        if isinstance(st, (ast.ImportFrom, ast.Import)) or (isinstance(st, ast.Expr) and isinstance(st.value, ast.Constant)):
+            continue
+        if isinstance(st, ast.If):
+            c = _canon_cond(st.test, pmap)
+            if c is None:
+                return False
+            if not _branches(st.body, pmap, path + [c], out, numba_side, canon):
+                return False
+            neg = ("not-isa" if c[0] == "isa" else "isa", c[1], c[2])
+            if st.orelse:
+                if not _branches(st.orelse, pmap, path + [neg], out, numba_side, canon):
+                    return False
+                continue
+            path = path + [neg]
+            continue
+        if isinstance(st, ast.Raise):
+            out.append((frozenset(path), ("raise",)))
+            return True
+        if numba_side and isinstance(st, ast.FunctionDef):
+            impl = st
+            rets = [s for s in st.body if not (isinstance(s, ast.Expr) and isinstance(s.value, ast.Constant))]
+            if len(rets) != 1 or not isinstance(rets[0], ast.Return) or rets[0].value is None:
+                return False
+            ipmap = {a.arg: f"p{i}" for i, a in enumerate(st.args.args)}
+            e = canon.expr(rets[0].value, ipmap)
+            if e is None:
+                return False
+            out.append((frozenset(path), e))
+            continue
+        if isinstance(st, ast.Return):
+            if numba_side:
+                if isinstance(st.value, ast.Name) and impl is not None and st.value.id == impl.name:
+                    return True
+                if isinstance(st.value, ast.Name):
+                    continue  # `return impl` after an if/else that defined it in every branch
+                return False
+            e = canon.expr(st.value, pmap) if st.value is not None else None
+            if e is None:
+                return False
+            out.append((frozenset(path), e))
+            return True
+        return False
+    return True
+
+
+def _simplify(branches):
+    """drop negative conditions implied by a positive one on the same parameter; keep raise leaves out of the comparison key"""
+    out = {}
+    for path, leaf in branches:
+        pos = {(p, d) for k, p, d in path if k == "isa"}
+        key = frozenset(("isa", p, d) for p, d in pos) | frozenset(c for c in path if c[0] == "not-isa" and not any(p == c[1] for p, _ in pos))
+        out[key] = leaf
+    return out
+
+
+def _composite_overloads(ctx, nf, overloads, instances):
+    ctx.rule("C07.composite-overloads", "an overload written in terms of other methods (no kernel table lookup: boost, boostCM_of*, negND, the momentum-named attributes ...) forwards, "
+                                        "branch by branch on the operand's dimension, to the same method with the same arguments as the interpreter's method of that name")
+    n = 0
+    for fn, decs in overloads:
+        src = unparse(fn)
+        if "_from_signature" in src or "numba_modules" in src:
+            continue
+        for kind, tname, name in instances(fn, decs):
+            if name is None or tname not in VTYPE_DIM:
+                continue
+            m = interp_method(VTYPE_DIM[tname], name, tname.startswith("Momentum"))
+            if m is None:
+                continue
+            pm_n = {a.arg: f"p{i}" for i, a in enumerate(fn.args.args)}
+            nb = []
+            dim, mom = VTYPE_DIM[tname], tname.startswith("Momentum")
+            if not _branches(fn.body, pm_n, [], nb, True, _Canon(dim, mom)) or not nb:
+                continue
+            pm_i = {a: f"p{i}" for i, a in enumerate(m.params)}
+            ib = []
+            if not _branches(strip_docstring(m.fn.body), pm_i, [], ib, False, _Canon(dim, mom, m.imports)) or not ib:
+                continue
+            a, b = _simplify(nb), _simplify(ib)
+            # the interpreter's final `else: raise` corresponds to numba's TypingError leaf; compare the forwarding leaves
+            fa = {k: v for k, v in a.items() if v != ("raise",)}
+            fb = {k: v for k, v in b.items() if v != ("raise",)}
+            n += 1
+            ok = fa == fb
+            ctx.ob("C07.composite-overloads", f"{tname}.{name}", ok,
+                   f"compiled code forwards {sorted(map(repr, fa.items()))}; the interpreter method forwards {sorted(map(repr, fb.items()))}",
+                   {"numba": sorted(map(repr, fa.items())), "interpreter": sorted(map(repr, fb.items()))}, f"{NUMBA_OBJ}:{fn.lineno}")
+    ctx.anchor("composite overloads compared with the interpreter", n, 40)
+
+
+def _literal_arguments(ctx, W, nf, overloads):
+    """a string argument that selects a kernel at typing time (the Euler order) must be read as a compile-time literal"""
+    from ..peval import EXT_KINDS
+    ctx.rule("C07.literal-order", "rotate_euler's `order` selects the kernel while the overload is typed: a Python str is used as is, a StringLiteral type contributes its literal_value, and a "
+                                  "non-literal string type raises TypingError (which makes Numba retry with the literal type) - otherwise compiled code silently uses one fixed order")
+    EXT_KINDS.setdefault("nb_stringliteral", {"numba.types.StringLiteral", "numba.types.Literal"})
+    EXT_KINDS.setdefault("nb_unicodetype", {"numba.types.UnicodeType"})
+    found = 0
+    for fn, decs in overloads:
+        params = [a.arg for a in fn.args.args]
+        if "order" not in params or "_from_signature" not in unparse(fn):
+            continue
+        # statements executed before the lookup, in the statement list that holds the lookup
+        holder = None
+        for node in ast.walk(fn):
+            for field in ("body", "orelse"):
+                lst = getattr(node, field, None)
+                if isinstance(lst, list):
+                    for i, st in enumerate(lst):
+                        if isinstance(st, ast.Assign) and isinstance(st.value, ast.Call) and unparse(st.value.func) == "_from_signature":
+                            holder = (lst, i, st)
+        if holder is None:
+            continue
+        lst, i, lookup = holder
+        key = lookup.value.args[2] if len(lookup.value.args) > 2 else None
+        if not isinstance(key, ast.Tuple):
+            continue
+        sel = [e for e in key.elts if not (isinstance(e, ast.Call) and unparse(e.func) in TYPEFN)]
+        if len(sel) != 1:
+            continue
+        found += 1
+        pre = [st for st in lst[:i] if any(isinstance(x, ast.Name) and x.id == "order" for x in ast.walk(st))]
+        synth = ast.FunctionDef(name="_order_prelude", args=ast.arguments(posonlyargs=[], args=[ast.arg(arg="order")], kwonlyargs=[], kw_defaults=[], defaults=[]),
+                                body=[*pre, ast.Return(value=sel[0])], decorator_list=[], lineno=fn.lineno, col_offset=0)
+        ast.fix_missing_locations(synth)
+        fv = FuncVal(synth, "vector.backends._numba_object")
+        cases = []
+        for o in ("zxz", "yzx"):
+            cases.append((f"str {o!r}", o, {}, o))
+            lit = Opaque("order_literal_" + o, "nb_stringliteral")
+            cases.append((f"StringLiteral({o!r})", lit, {lit.tag: {"literal_value": o, "__closed__": True}}, o))
+        nl = Opaque("order_unicode_type", "nb_unicodetype")
+        cases.append(("non-literal unicode_type", nl, {nl.tag: {"__closed__": True}}, "raise"))
+        for label, val, oa, want in cases:
+            I = Interp(W, opaque_attrs=oa)
+            try:
+                got = I.call_function(fv, [val], {})
+                ok = want != "raise" and got == want
+                msg = f"the kernel is selected with order = {got!r}" + ("; must raise TypingError so that Numba retries with the literal type" if want == "raise" else f", the caller asked for {want!r}")
+            except PyRaise as e:
+                ok = want == "raise" and "TypingError" in str(e.exc)
+                msg = f"raises {e.exc}"
+            except Undecided as e:
+                ctx.decline(f"C07.literal-order {fn.name} [{label}]: {e}")
+                continue
+            ctx.ob("C07.literal-order", f"{fn.name}[{label}]", ok, msg, {"order": label}, f"{NUMBA_OBJ}:{fn.lineno}")
+    ctx.anchor("overloads selecting a kernel by a string argument", found, 1)
+
+
+# ---- vector.obj inside compiled code ---------------------------------------------------------------------------------------
+def _shape(r):
+    if isinstance(r, Inst):
+        return (r.cls.name, tuple(sorted((k, _shape(v)) for k, v in r.attrs.items() if not k.startswith("__"))))
+    if isinstance(r, Opaque):
+        return ("value", r.tag)
+    if isinstance(r, (tuple, list)):
+        return tuple(_shape(x) for x in r)
+    return repr(r)
+
+
+def _obj_agreement(ctx, W, nf):
+    """interpret the typing function of the vector.obj overload and the implementation it returns, and the interpreter's vector.obj, on every small set of names"""
+    import itertools
+    ctx.rule("C07.obj-agreement", "for every set of up to 4 (thorough: 5) of the 19 coordinate names, vector.obj inside compiled code (the overload's typing function, then the implementation "
+                                  "it returns, interpreted abstractly on opaque value tokens) builds the vector the interpreter's vector.obj builds - same class, each value token in the same "
+                                  "slot - and raises TypingError exactly where the interpreter raises TypeError")
+    vo = nf.functions.get("vector_obj")
+    if vo is None:
+        raise AnalysisError("anchor vector_obj overload missing")
+    fv = FuncVal(vo, "vector.backends._numba_object")
+    names = [a.arg for a in vo.args.args][1:]
+    obj = W.lookup_global("vector.backends.object", "obj", Interp(W))
+    maxk = 5 if ctx.tier == "thorough" else 4
+    n = bad = 0
+    for k in range(0, maxk + 1):
+        for S in itertools.combinations(names, k):
+            n += 1
+            try:
+                I = Interp(W)
+                try:
+                    impl = I.call_function(fv, [], {x: Opaque("type_" + x, "notnone") for x in S})
+                    vals = {x: Opaque("v_" + x, "real") for x in S}
+                    a = _shape(I.call(impl, [], {x: vals.get(x) for x in names}))
+                except PyRaise as e:
+                    a = ("raises", "TypingError" if "TypingError" in str(e.exc) else str(e.exc))
+                I = Interp(W)
+                try:
+                    b = _shape(I.call(obj, [], {x: Opaque("v_" + x, "real") for x in S}))
+                except PyRaise as e:
+                    b = ("raises", str(e.exc))
+            except Undecided as e:
+                raise AnalysisError(f"C07.obj-agreement: name set {S} could not be interpreted: {e}") from None
+            ok = a == b or (a[0] == "raises" and b[0] == "raises" and a[1] == "TypingError" and b[1] == "TypeError")
+            if not ok:
+                bad += 1
+                ctx.ob("C07.obj-agreement", f"vector.obj({', '.join(S)})", False,
+                       f"compiled code gives {a if a[0] == 'raises' else a[0]}, the interpreter {b if b[0] == 'raises' else b[0]}", {"numba": repr(a)[:400], "interpreter": repr(b)[:400]},
+                       f"{NUMBA_OBJ}:{vo.lineno}")
+    c = ctx.rule_counts.setdefault("C07.obj-agreement", [0, 0])
+    c[0] += n - bad
+    c[1] += n - bad
+    ctx.constructs.add(f"C07.obj-agreement::<{n} name sets>")
+    ctx.anchor("vector.obj name sets compared", n, 5036)
